@@ -449,6 +449,19 @@ class SchedOracle(object):
                           '%s: slot lfs/mem %s/%s for request %s/%s'
                           % (uid, s['lfs'], s['mem'], td['lfs_per_rank'],
                              td['mem_per_rank']), w)
+        # the ranks of one placement do not share cores or whole GPUs: the
+        # task gets ranks x cores_per_rank cores, not fewer
+        seen_c, seen_g = set(), set()
+        for s in slots:
+            cs = set((s['node_index'], i) for i, _ in s['cores'])
+            gs = set((s['node_index'], i) for i, o in s['gpus']
+                     if abs(o - 1.0) < EPS)
+            if cs & seen_c or gs & seen_g:
+                self.viol('C02', 'ranks-overlap|scheduler|%s' % sh,
+                          '%s: ranks share %s' % (uid, sorted(cs & seen_c) +
+                                                  sorted(gs & seen_g)), w)
+            seen_c |= cs
+            seen_g |= gs
         rpn = td['ranks_per_node']
         if rpn and any(v > rpn for v in per_node.values()):
             self.viol('C02', 'ranks-per-node|scheduler|%s' % sh,
@@ -724,6 +737,8 @@ SHAPES = {
     'r2gh'  : T(ranks=2, cores_per_rank=1, gpus_per_rank=0.5),
     'r4gh'  : T(ranks=4, cores_per_rank=1, gpus_per_rank=0.5),
     'g1h'   : T(ranks=1, cores_per_rank=1, gpus_per_rank=1.5),
+    'r3g334': T(ranks=3, cores_per_rank=1, gpus_per_rank=0.334),
+    'r4g251': T(ranks=4, cores_per_rank=1, gpus_per_rank=0.251),
     'l2'    : T(ranks=1, cores_per_rank=1, lfs_per_rank=2),
     'l1'    : T(ranks=1, cores_per_rank=1, lfs_per_rank=1),
     'r2l1'  : T(ranks=2, cores_per_rank=1, lfs_per_rank=1),
@@ -740,6 +755,7 @@ SHAPES = {
                                                  'exclusive': True}),
     'tax'   : T(ranks=1, cores_per_rank=1, tags={'colocate': 'a',
                                                  'exclusive': True}),
+    't0'    : T(ranks=1, cores_per_rank=1, tags={'colocate': 0}),
     'p1'    : T(ranks=1, cores_per_rank=1, priority=1),
     'p1c2'  : T(ranks=1, cores_per_rank=2, priority=1),
     'c2p0'  : T(ranks=1, cores_per_rank=2, priority=0),
@@ -851,6 +867,11 @@ def scenarios(ctx_pid, quick):
         for combo in itertools.product(['gh', 'r2gh', 'g1'], repeat=3):
             add('frac', 'L1x4g2', list(combo))
 
+    # shares which do not divide a GPU: k of them exceed it by a hair
+    for combo in itertools.product(['r3g334', 'r4g251', 'gh'], repeat=2):
+        if combo != ('gh', 'gh'):
+            add('frac', 'L1x4g2', list(combo))
+
     # lfs / mem -----------------------------------------------------------------
     lm = ['l2', 'l1', 'r2l1', 'm2', 'm1', 'l3']
     for combo in itertools.product(lm, repeat=2 if quick else 3):
@@ -872,6 +893,10 @@ def scenarios(ctx_pid, quick):
         add('rpn', 'L3x2', list(combo))
     for combo in itertools.product(['ta', 'tb', 'tax', 'c2'], repeat=3):
         add('tags', 'L3x2', list(combo))
+    # a tag need not be a string (bag index 0)
+    for combo in itertools.product(['t0', 'c2', 'ta'], repeat=3):
+        if 't0' in combo:
+            add('tags', 'L3x2', list(combo))
 
     # blocked resources, agent nodes ---------------------------------------------
     for combo in itertools.product(['c1', 'r3', 'g1', 'r4'], repeat=2):
@@ -1030,6 +1055,12 @@ def run(ctx):
         # part 2: the executors ask for the release exactly once per task
         from checks import c07_executor
         c07_executor.run_exec(ctx, 'C03')
+    if ctx.pid == 'C01':
+        # part 2: a second release request for a task frees cores, lfs and
+        # mem which may by then be granted to someone else (the scheduler
+        # does not recognise repeats): no task is released twice
+        from checks import c07_executor
+        c07_executor.run_exec(ctx, 'C01')
     ctx.set(rule='states = distinct (scheduler state, resources flag, '
                  'remaining events, oracle status) at loop boundaries; '
                  'transitions = loop iterations + injected events; every '
